@@ -51,9 +51,19 @@ def _cases(draw, tier):
             inst = draw(strategies.crowd_instances(two_sided=draw(st.booleans())))
         opts = draw(strategies.option_sets(inst, min_crit=1, max_crit=3, stab=False))
         return {'inst': inst, 'opts': opts, 'choices': [], 'mode': 'cbc', 'salt': salt}
+    odd_targets = pct(draw) < 12
     inst = draw(strategies.instances(strategies.SIZES[tier]))
-    shape = draw(st.sampled_from(['none', 'none', 'minsize', 'few', 'few']))
-    if shape == 'none':
+    if odd_targets and inst['na'] == 3:
+        # a target is free text in a hand-written file: also below the lower or above the upper
+        # quota.  |load - target| is defined all the same, and this oracle needs nothing else.
+        inst['lt'] = [draw(st.sampled_from([0, 1, 2, 3, 5, 9])) for _ in range(inst['n3'])]
+        inst['cls'] = inst.get('cls', '?') + '+odd_targets'
+    shape = draw(st.sampled_from(['none', 'none', 'minsize', 'few', 'few', 'balance']
+                                 if odd_targets else ['none', 'none', 'minsize', 'few', 'few']))
+    if shape == 'balance':
+        opts = draw(strategies.option_sets(inst, min_crit=1, max_crit=2,
+                                           names=['lmb', 'lsb', 'mincostlsb', 'maxsize']))
+    elif shape == 'none':
         opts = draw(strategies.option_sets(inst, min_crit=0, max_crit=0))
     elif shape == 'minsize':
         opts = draw(strategies.option_sets(inst, min_crit=1, max_crit=1, names=['minsize']))
